@@ -239,35 +239,46 @@ Theorem C17_floor_withdraw_rejected : forall s c n amt ph l,
 Proof. exact withdraw_floor_rejects. Qed.
 Print Assumptions C17_floor_withdraw_rejected.
 
-(** Launched-token deposits.  FULL CLAUSE of the property text:
-      "a launched-token deposit that would leave the price below the configured minimum is rejected", i.e.
-      ep_deposit s c TOK_L amt = Ok (s', o) -> exists p, view_price s' = Ok p /\ c_minp <= p.
-    PROVED (partial): the resulting price is at/above the minimum OR EXACTLY ZERO; a deposit that would
-    leave it strictly between zero and the minimum is rejected.
-    MISSING, and false of the code: the case where the resulting price rounds to zero — see
-    [C17_floor_launched_deposit_refuted]. *)
-Theorem C17_floor_launched_deposit_partial : forall s c amt s' o,
+(** Launched-token deposits (full clause).  An accepted one leaves the accepted balance untouched and,
+    whenever accepted tokens are present, the price at/above the minimum; with no accepted tokens at all
+    the price is 0 by definition (bootstrap, below). *)
+Theorem C17_floor_launched_deposit : forall s c amt s' o,
   ep_deposit s c TOK_L amt = Ok (s', o) ->
-  exists p, view_price s' = Ok p /\ (p = 0 \/ c_minp (p_cfg s') <= p).
+  exists p, view_price s' = Ok p /\ p_ab s' = p_ab s /\
+    (0 < p_ab s' -> c_minp (p_cfg s') <= p) /\ (p_ab s' = 0 -> p = 0).
 Proof. exact deposit_floor. Qed.
-Print Assumptions C17_floor_launched_deposit_partial.
+Print Assumptions C17_floor_launched_deposit.
 
-Theorem C17_floor_launched_deposit_rejected_partial : forall s c amt,
-  0 < p_ab s * c_prec (p_cfg s) / (p_lb s + amt) < c_minp (p_cfg s) ->
+(** one that would leave the price below the minimum while accepted tokens are present is rejected —
+    including the case where the resulting price rounds to zero *)
+Theorem C17_floor_launched_deposit_rejected : forall s c amt,
+  0 < p_ab s ->
+  p_ab s * c_prec (p_cfg s) / (p_lb s + amt) < c_minp (p_cfg s) ->
   is_ok (ep_deposit s c TOK_L amt) = false.
 Proof. exact deposit_floor_rejects. Qed.
-Print Assumptions C17_floor_launched_deposit_rejected_partial.
+Print Assumptions C17_floor_launched_deposit_rejected.
 
-(** The full clause is false of the faithful model (and of the contract: the harness replays this
-    history): in a reachable state with accepted liquidity, a positive minimum price and the price
-    at/above it, a large launched-token deposit is ACCEPTED and leaves the price at 0 < minimum. *)
-Theorem C17_floor_launched_deposit_refuted :
-  exists s c amt s' o p,
-    Inv s /\ 0 < c_minp (p_cfg s) /\ 0 < p_ab s /\
-    view_price s = Ok p /\ c_minp (p_cfg s) <= p /\
-    ep_deposit s c TOK_L amt = Ok (s', o) /\ view_price s' = Ok 0.
-Proof. exact zero_price_escape. Qed.
-Print Assumptions C17_floor_launched_deposit_refuted.
+(** Bootstrap, precisely: while NO accepted tokens are deposited (accepted balance = 0) the price is 0 by
+    definition, and a launched-token deposit in a deposit phase is accepted whatever the minimum price is,
+    provided it leaves a positive launched balance (otherwise no price is defined); the price stays 0.
+    This is the only situation in which a launched-token deposit may leave price < minimum. *)
+Theorem C17_floor_bootstrap : forall s c amt ph,
+  get_current_phase (p_cfg s) (p_block s) = Ok ph -> deposit_allowed ph = true ->
+  0 <= amt -> 0 < p_lb s + amt -> p_ab s = 0 ->
+  exists s', ep_deposit s c TOK_L amt = Ok (s', [amt]) /\ view_price s' = Ok 0 /\ p_ab s' = 0.
+Proof. exact deposit_bootstrap. Qed.
+Print Assumptions C17_floor_bootstrap.
+
+(** Regression for the repaired zero-price escape (/repo 398b115; harness corpus "zero-price-escape"):
+    minimum 5, price 10 with accepted liquidity 100; the bootstrap deposit was accepted with price 0; a
+    launched deposit of 40 (price would be 2) and one of 1000 (price would round to 0) are both rejected. *)
+Example C17_zero_price_regression :
+  let s := run wit_s0 wit_ops in
+  init_pd 1 0 5 2 5 5 5 0 0 0 = Ok wit_s0 /\
+  is_ok (step wit_s0 (Tick 1)) = true /\ is_ok (step (run wit_s0 [Tick 1]) (Deposit 1 TOK_L 10)) = true /\
+  view_price s = Ok 10 /\ p_ab s = 100 /\
+  is_ok (ep_deposit s 2 TOK_L 40) = false /\ is_ok (ep_deposit s 2 TOK_L 1000) = false.
+Proof. vm_compute. repeat split. Qed.
 
 (** ------------------------------------------------------------------ non-vacuity
     A concrete deployment (6 decimals, penalties 10%..50% linear over 3 blocks, 25% fixed) taken through
